@@ -56,7 +56,7 @@ theorem invF_stepM (c : Cfg) (p : Params) (s s' : State) (hB : InvB s) (h : InvF
 
 /-! ### no monitor error when the scan runs under the lock -/
 def errPc : MPc → Bool
-  | .g173e | .gUnlockE | .p183xE | .m128 | .m132 | .dead => true
+  | .g173e | .gUnlockE | .p183xE | .m128 | .m132 | .mExit | .dead => true
   | _ => false
 
 structure InvN (s : State) : Prop where
